@@ -38,6 +38,15 @@ Theorem C07_SMTWTP_reward :
 Proof. exact SMTWTP.SMTWTP_reward. Qed.
 Print Assumptions C07_SMTWTP_reward.
 
+(* td["current_time"], the dynamic observation the SMTWTP policy context reads: after any executable action list it is the
+   completion time of the scheduled prefix (the sum of the processing times of the jobs taken so far) *)
+Theorem C07_SMTWTP_clock_is_completion_time :
+  forall (i : SMTWTP.inst) (acts : list nat) (s s' : SMTWTP.st),
+    SMTWTP.run i s acts = Some s' ->
+    SMTWTP.cur_time s' = SMTWTP.cur_time s + sumZ (SMTWTP.gather (SMTWTP.ptime i) acts).
+Proof. exact SMTWTP.run_time. Qed.
+Print Assumptions C07_SMTWTP_clock_is_completion_time.
+
 (* ---------------------------------------------------------------- FFSP *)
 
 (* Any mask-confined episode (wait actions included) can be executed, and once the row is done its schedule table
